@@ -29,7 +29,7 @@ def spec_field(spec, key):
 
 
 # which property's statement governs an operation family (error kinds named there must match exactly)
-FAMILY_OWNER = {"r2f": "C04", "f2r": "C04", "slice": "C04", "secbytes": "C04", "read": "C05", "r2v": "C05", "v2r": "C05",
+FAMILY_OWNER = {"r2f": "C04", "f2r": "C04", "slice": "C04", "secbytes": "C04", "slice_bytes": "C04", "read_bytes": "C05", "hdrw2": "C07", "read": "C05", "r2v": "C05", "v2r": "C05",
                 "to_view": "C06", "to_file": "C06", "from_bytes": "C07", "hdr": "C07", "hdrw": "C07", "byrva": "C07", "byname": "C07",
                 "exports": "C08", "export": "C08", "imports": "C09", "iat": "C09", "scan": "C10", "scan_code": "C10", "finds": "C10",
                 "finds_code": "C10", "pat_exec": "C10", "pat_sem": "C11", "pat_ref": "C11", "pat_parse": "C17", "pat_macro": "C17",
@@ -115,6 +115,10 @@ class Prop:
                 if pi.startswith(pre) and pm.startswith(pre):
                     ki = pi.split(" ")[1] if " " in pi else ""
                     km = pm.split(" ")[1] if " " in pm else ""
+                    if pre == "noimg ":
+                        # the constructor rejected the buffer: the kinds C07's statement names, whatever the operation
+                        c07 = REGISTRY.get("C07")
+                        named = c07.named_errors if c07 is not None and c07.named_errors is not None else named
                     # a kind the statement names must match exactly, whichever side reports it
                     if km not in named and ki not in named:
                         return True
@@ -164,10 +168,92 @@ class C14(Prop):
     named_errors = set()     # the statement names no error kind: errors agree by class
     pid = "C14"
     title = "base relocations"
-    thm_modules = ["PeliteModel.Thm.C14", "PeliteModel.Thm.ImageLayout"]
-    gens = [gen_pure.gen_relocs_raw, gen_pure.gen_relocs_rawat, gen_pure.gen_relocs_hist, gen_pure.gen_relocs_build]
+    thm_modules = ["PeliteModel.Thm.C14", "PeliteModel.Thm.ImageLayout", "PeliteModel.Thm.C14Layout"]   # extraction (`Pe::base_relocs`): restated here as C14_extraction (C19_base_relocs_ref is its corollary)
+    gens = [gen_pure.gen_relocs_raw, gen_pure.gen_relocs_rawat, gen_pure.gen_relocs_hist, gen_pure.gen_relocs_build, gen_pure.gen_relocs_image]
+
+    # ---- extraction (`relocs <k> dump` on an image): judged against the bytes of the `img` line, read here by the PE
+    # format (data directory 5 = (VirtualAddress, Size); a directory = blocks of `Block Size` bytes), independently of
+    # the model: the window handed out is `Size` bytes, dword aligned in memory, at the directory's RVA in a mapped
+    # image, and on well-formed directory bytes the blocks / entries reported are the format's (C14_extraction,
+    # C14_blocks_partition_dir, C14_flat_eq_spec_dir)
+    @staticmethod
+    def _decode_dir(d):
+        """-> (well formed?, [(page rva, offset, block size)], [(rva, type)]) of a directory by the PE format"""
+        off, blocks, flat = 0, [], []
+        while len(d) - off >= 8:
+            va, size = int.from_bytes(d[off:off + 4], "little"), int.from_bytes(d[off + 4:off + 8], "little")
+            if size < 8 or size % 4 or off + size > len(d):
+                return False, blocks, flat
+            for i in range((size - 8) // 2):
+                w = int.from_bytes(d[off + 8 + 2 * i:off + 10 + 2 * i], "little")
+                if w >> 12:
+                    flat.append(((va + (w & 0xFFF)) & 0xFFFFFFFF, w >> 12))
+            blocks.append((va, off, size))
+            off += size
+        return True, blocks, flat
+
+    def _set_img(self, line):
+        self.img, self.al, self.lay = None, 0, None
+        w = line.split(" ")
+        if len(w) >= 4 and w[0] == "img":
+            try:
+                self.al = int(w[1], 0)
+                self.img = bytes.fromhex(w[3]) if w[3] != "-" else b""
+                self.lay = C06._layout(self.img)
+            except ValueError:
+                self.img, self.lay = None, None
+
+    def begin_case(self, case):
+        self._set_img(case[0] if case else "")
+
+    def _extraction(self, k, impl):
+        lay, img = self.lay, self.img
+        if lay is None or klass(impl) not in ("ok", "err"):
+            return None
+        dd = lay["nt_end"] + 8 * 5
+        if lay["ndirs"] <= 5:
+            return None if klass(impl) == "err" else "no data-directory slot 5, yet a relocation directory was extracted: %s" % impl[:200]
+        if dd + 8 > len(img):
+            return None
+        va, size = int.from_bytes(img[dd:dd + 4], "little"), int.from_bytes(img[dd + 4:dd + 8], "little")
+        if va == 0:
+            return None if klass(impl) == "err" else "relocation directory at RVA 0 (absent), yet extracted: %s" % impl[:200]
+        mapped = k in ("v32", "v64", "wv")
+        if mapped:
+            want_ok = (self.al + va) % 4 == 0 and va + size <= len(img)
+            if want_ok != impl.startswith("ok "):
+                return "mapped image, relocation directory (rva %d, size %d): extraction should %s, answered %s" % (va, size, "succeed" if want_ok else "fail", impl[:200])
+        if not impl.startswith("ok "):
+            return None
+        m = re.match(r"ok image=(\d+):(\d+) blocks=\[(\S*)\] flat=\[(\S*)\]$", impl)
+        if not m:
+            return "extraction answer not understood: %s" % impl[:200]
+        off, ln = int(m.group(1)), int(m.group(2))
+        if ln != size:
+            return "the extracted directory has %d bytes, the data directory says Size = %d" % (ln, size)
+        if (self.al + off) % 4:
+            return "the extracted directory is not dword aligned in memory (offset %d, buffer at %d mod 16)" % (off, self.al)
+        if off + ln > len(img):
+            return "the extracted directory [%d, %d) leaves the buffer (%d bytes)" % (off, off + ln, len(img))
+        if mapped and off != va:
+            return "mapped image: the directory at RVA %d was extracted from offset %d" % (va, off)
+        wf, blocks, flat = self._decode_dir(img[off:off + ln])
+        if wf:
+            want_b = ",".join("%d@%d:8+%d/%d:%d" % (bva, off + bo, bs, off + bo + 8, bs - 8) for bva, bo, bs in blocks)
+            want_f = ",".join("%d:%d" % p for p in flat)
+            if m.group(3) != want_b:
+                return "well-formed directory: blocks reported %s, the format lays out %s" % (m.group(3)[:300], want_b[:300])
+            if m.group(4) != want_f:
+                return "well-formed directory: entries reported %s differ from the PE-format decoding %s" % (m.group(4)[:300], want_f[:300])
+        return None
 
     def oracle(self, op, impl, model, spec):
+        if op.startswith("img "):
+            self._set_img(op)
+            return None
+        mx = re.match(r"relocs (\S+) dump$", op)
+        if mx:
+            return self._extraction(mx.group(1), impl)
         if op.startswith("relocs_raw"):          # relocs_raw and relocs_rawat
             if "foreach_same=0" in impl or "fold_same=0" in impl:
                 return "block iterator and for_each/fold disagree: %s" % impl[:300]
@@ -210,8 +296,8 @@ class C04(Prop):
     named_errors = {"ZeroFill", "Bounds"}       # "report zero-fill", "report out-of-bounds"
     pid = "C04"
     title = "file views resolve RVAs through the section table"
-    thm_modules = ["PeliteModel.Thm.C04"]
-    gens = [gen_img.gen_c04, gen_img.gen_c04_firstmatch]
+    thm_modules = ["PeliteModel.Thm.C04", "PeliteModel.Thm.C04View"]
+    gens = [gen_img.gen_c04, gen_img.gen_c04_firstmatch, gen_img.gen_c04_manysec]
 
     def nontrivial(self, op, impl):
         return impl.startswith("ok ")
@@ -225,7 +311,7 @@ class C07(Prop):
     gens = [gen_img.gen_c07_corpus, gen_img.gen_c07, gen_img.gen_c07_boundaries]
 
     def oracle(self, op, impl, model, spec):
-        if op.startswith("hdr ") and impl.startswith("ok "):
+        if op.startswith(("hdr ", "hdrw2 ")) and impl.startswith("ok "):
             std = spec_field(spec, "stdcsum")
             m = re.search(r" csum=(\d+)", impl)
             if std is not None and m and m.group(1) != std:
@@ -240,25 +326,38 @@ class C05(Prop):
     named_errors = {"Null"}                     # "a zero address always yields the null error"; read vs slice: see oracle
     pid = "C05"
     title = "VA / RVA / typed reads"
-    thm_modules = ["PeliteModel.Thm.C05", "PeliteModel.Thm.C05Complete"]
+    thm_modules = ["PeliteModel.Thm.C05", "PeliteModel.Thm.C05Complete", "PeliteModel.Thm.C05SliceF"]
     gens = [gen_img.gen_c05]
 
     def begin_case(self, case):
         self.last_slice = None
+        if not hasattr(self, "judged"):
+            self.judged = {"slice_read_pairs_seen": 0, "slice_read_pairs_judged": 0, "slice_bytes_read_bytes_pairs_judged": 0,
+                           "pairs_judged_ok": 0, "pairs_judged_err": 0}
+
+    def stats(self):
+        return dict(getattr(self, "judged", {}))
 
     def oracle(self, op, impl, model, spec):
         # "reading at virtual address B+r returns exactly what slicing at RVA r returns (same bytes,
         # same error class)": the generator issues `slice k r n a` immediately followed by
-        # `read k B+r n a`; both answers come from the implementation
+        # `read k B+r n a` (and `slice_bytes k r` by `read_bytes k B+r`, the (0, 1) shorthands); both
+        # answers come from the implementation
         w = op.split(" ")
-        if w[0] == "slice":
-            self.last_slice = (w[1], w[3], w[4], impl, model)
-        elif w[0] == "read" and self.last_slice and self.last_slice[:3] == (w[1], w[3], w[4]):
-            k, n, a, s_impl, s_model = self.last_slice
+        if w[0] == "slice" and len(w) == 5:
+            self.last_slice = ("read", w[1], w[3], w[4], impl, model)
+        elif w[0] == "slice_bytes" and len(w) == 3:
+            self.last_slice = ("read_bytes", w[1], "0", "1", impl, model)
+        elif w[0] in ("read", "read_bytes") and self.last_slice and self.last_slice[:4] == (w[0], w[1]) + (tuple(w[3:5]) if w[0] == "read" else ("0", "1")):
+            twin, k, n, a, s_impl, s_model = self.last_slice
             self.last_slice = None
+            self.judged["slice_read_pairs_seen"] += 1
             # only where the model says the two paths denote the same request (r in (0, SizeOfImage))
-            if s_model == model and klass(model) in ("ok", "err") and self.project(op, s_impl) != self.project(op, impl):
-                return "read at B+r answered %s but slice at r answered %s" % (impl[:150], s_impl[:150])
+            if s_model == model and klass(model) in ("ok", "err"):
+                self.judged["slice_read_pairs_judged" if twin == "read" else "slice_bytes_read_bytes_pairs_judged"] += 1
+                self.judged["pairs_judged_" + klass(model)] += 1
+                if self.project(op, s_impl) != self.project(op, impl):
+                    return "%s at B+r answered %s but %s at r answered %s" % (w[0], impl[:150], "slice" if twin == "read" else "slice_bytes", s_impl[:150])
         else:
             self.last_slice = None
         return None
@@ -271,8 +370,8 @@ class C06(Prop):
     named_errors = set()
     pid = "C06"
     title = "file <-> view conversion"
-    thm_modules = ["PeliteModel.Thm.C06", "PeliteModel.Thm.C06RoundTrip", "PeliteModel.Thm.C06Slice"]
-    gens = [gen_img.gen_c06]
+    thm_modules = ["PeliteModel.Thm.C06", "PeliteModel.Thm.C06RoundTrip", "PeliteModel.Thm.C06Slice", "PeliteModel.Thm.C06Typed"]
+    gens = [gen_img.gen_c06, gen_img.gen_c06_dirs]
 
     # "every RVA whose bytes are stored in the file and mapped reads identically through a file view and
     # through a view over the converted buffer": gen_c06 issues the same typed reads on the file (phase 0),
@@ -309,6 +408,8 @@ class C06(Prop):
             lay["image_base"], lay["ndirs"] = u32(opt + 28), min(u32(opt + 92), 16)
         else:
             lay["image_base"], lay["ndirs"] = u32(opt + 24) | (u32(opt + 28) << 32), min(u32(opt + 108), 16)
+        dd = e + nt_size
+        lay["dirs"] = [(u32(dd + 8 * i), u32(dd + 8 * i + 4)) for i in range(lay["ndirs"]) if dd + 8 * i + 8 <= len(data)]
         tab = opt + soh_opt
         lay["sec_end"] = tab + 40 * nsec
         if lay["sec_end"] > len(data):
@@ -323,8 +424,9 @@ class C06(Prop):
         U = 1 << 32
         secs = lay["secs"]
         for s in secs:
+            # (a section without raw data — `.bss`, PointerToRawData usually 0 — stores nothing: its pointer is free)
             if not (s["va"] + s["vs"] < U and s["prd"] + s["rs"] < U and s["va"] + s["vs"] <= lay["soi"]
-                    and s["prd"] + s["rs"] <= lay["len"] and lay["soh"] <= s["va"] and lay["soh"] <= s["prd"]):
+                    and s["prd"] + s["rs"] <= lay["len"] and lay["soh"] <= s["va"] and (s["rs"] == 0 or lay["soh"] <= s["prd"])):
                 return False
         for i, a in enumerate(secs):
             for b in secs[i + 1:]:
@@ -343,9 +445,153 @@ class C06(Prop):
                 return rva - s["va"] + n <= min(s["vs"], s["rs"])
         return False
 
+    # "every directory query (exports, imports, relocations, resources, TLS, debug, exceptions, load config, Rich
+    # header) gives equal results on both": gen_c06_dirs issues the directory dumps on the file (phase 0) and on
+    # the view over the converted buffer (phase 1).  The two answers must be the same text except for the
+    # `off:len` references, and a reference may only differ by being RELOCATED: the file's `off:len` lies in
+    # stored-and-mapped bytes at rva r (or in the headers) and the view's reference is exactly `r:len` (the
+    # bytes there are the same by the typed-read clause / C06_same_slice).  Names, ordinals, thunk values,
+    # record contents, counts and byte digests are ordinary text and must be equal.  Judged when the image is
+    # `LoadableFile`, the file's answer contains no failure other than `Null` (a range that is not stored reads
+    # as zeros through the view: ZeroFill / Bounds / a missing terminator may legitimately turn into a value),
+    # and no number pair of the file's answer, read as a reference, touches stored-but-not-mapped bytes.
+    DIR_FAMS = ("exports", "imports", "iat", "relocs", "res", "grp_write", "tls", "debug", "exc", "loadcfg", "rich")
+    CHAIN = re.compile(r"\d+(?::\d+)+")
+    FAIL = re.compile(r"(?:!|err:|err |Err:)([A-Za-z0-9]+)|data=none|\(none\)")
+    STABLE = ("Null", "NotFound", "Bad8Path", "NoRootPath", "UnDataEntry", "UnDirectory")
+    # index of the data directory a family reads ("the directory lies in stored-and-mapped bytes"; the Rich header
+    # lies in the headers, which keep their offsets)
+    DIR_INDEX = {"exports": 0, "imports": 1, "res": 2, "grp_write": 2, "exc": 3, "relocs": 5, "debug": 6, "tls": 9, "loadcfg": 10, "iat": 12}
+    # bytes read behind a printed reference without being part of it: string terminators, the zero thunk / zero
+    # callback / zero import descriptor (20 bytes) that ends an array.  The sized directories (relocation blocks,
+    # resource tables inside the directory extent, the Rich area) have none.
+    SLACK = {"relocs": 0, "res": 0, "grp_write": 0, "rich": 0}
+    SLACK_DEFAULT = 32
+
+    def stats(self):
+        return dict(getattr(self, "judged", {}))
+
+    def _count(self, key, n=1):
+        self.judged[key] = self.judged.get(key, 0) + n
+
+    def _file_to_rvas(self, off, ln):
+        """the rvas at which the converted view shows the stored-and-mapped file bytes [off, off+ln); the
+        headers keep their offsets"""
+        lay, out = self.lay, set()
+        if off + ln <= lay["soh"]:
+            out.add(off)
+        for s in lay["secs"]:
+            if s["rs"] and s["prd"] <= off and off + ln <= s["prd"] + min(s["vs"], s["rs"]):
+                rva = off - s["prd"] + s["va"]
+                if ln == 0 or self._stored_and_mapped(rva, ln):
+                    out.add(rva)
+        return out
+
+    def _touches_unmapped(self, off, ln, slack):
+        """[off, off+ln) plus the slack for terminators reaches stored bytes that are not mapped (rs > vs)"""
+        for s in self.lay["secs"]:
+            if s["rs"] > s["vs"] and off < s["prd"] + s["rs"] and off + ln + slack > s["prd"] + s["vs"]:
+                return True
+        return False
+
+    def _ref_chains(self, fam, a0):
+        """the `a:b(:c…)` number chains of a file answer that may hold references (a chain of pure values that is
+        taken for a reference only makes the oracle skip the operation)"""
+        if fam == "relocs":
+            a0 = a0.split(" flat=", 1)[0]              # flat=[rva:type,…] are values
+        elif fam == "rich":
+            m = re.search(r" img=(\d+:\d+)", a0)       # recs=[product:build:count,…] are values
+            return [m.group(1)] if m else []
+        return self.CHAIN.findall(a0)
+
+    def _dir_judge(self, key, a0, a1):
+        """phase-0 answer of the file, phase-1 answer of the view over the converted buffer -> text | None"""
+        fam = key[0]
+        self._count("dir_ops_paired")
+        abnormal = ("panic", "crash", "timeout", "diverge", "ub", "bad-op", "none")      # (C01-C03 judge those)
+        if klass(a0) in abnormal or klass(a1) in abnormal or a0.startswith("noimg"):
+            self._count("dir_skipped_abnormal")
+            return None
+        if not self.view_ok:
+            self._count("dir_skipped_view_rejected")
+            return None
+        for m in self.FAIL.finditer(a0):
+            # (`Null` = a zero pointer / absent directory, the `FindError` kinds = facts about the resource tree:
+            # values like any other; `Err:<n>` in a Rich dump is the encoder's size answer, not a failure)
+            if m.group(1) not in self.STABLE and not (fam == "rich" and m.group(0).startswith("Err:")):
+                self._count("dir_skipped_file_failure")
+                return None
+        if fam == "debug":
+            # a debug entry names its raw data twice: PointerToRawData (used by file views) and AddressOfRawData
+            # (used by mapped views; 0 = not mapped).  The two views read the same bytes only when the entry is
+            # consistent: the file pointer is stored and mapped at exactly that rva
+            for m in re.finditer(r" sz=(\d+) aord=(\d+) ptr=(\d+) ", a0):
+                sz, aord, ptr = int(m.group(1)), int(m.group(2)), int(m.group(3))
+                if aord not in self._file_to_rvas(ptr, sz):
+                    self._count("dir_skipped_debug_entry_inconsistent")
+                    return None
+        idx = self.DIR_INDEX.get(fam)
+        if idx is not None and idx < len(self.lay["dirs"]):
+            rva, size = self.lay["dirs"][idx]
+            if rva != 0 and not self._stored_and_mapped(rva, size):
+                self._count("dir_skipped_extent_not_stored_and_mapped")
+                return None
+        if fam in ("res", "grp_write") and not (fam == "res" and key[1:2] == ("dump",)) and not self.res_dump_clean:
+            # lookups / reassembly read data entries that their answer does not print as references: judged when
+            # the full dump of the same tree (every data entry as `off:len#digest`) met the preconditions
+            self._count("dir_skipped_res_dump_not_judged")
+            return None
+        slack = self.SLACK.get(fam, self.SLACK_DEFAULT)
+        for ch in self._ref_chains(fam, a0):
+            n = [int(x) for x in ch.split(":")]
+            # (`value:value:off:len` records — POGO items, icon entries — pair up from the left)
+            if any(self._touches_unmapped(n[i], n[i + 1], slack) for i in range(0, len(n) - 1, 2 if len(n) % 2 == 0 else 1)):
+                self._count("dir_skipped_unmapped_tail")
+                return None
+        c0, c1 = self.CHAIN.findall(a0), self.CHAIN.findall(a1)
+        if fam == "res" and key[1:2] == ("dump",):
+            self.res_dump_clean = True
+        self._count("dir_ops_judged")
+        self._count("dir_judged_" + fam)
+        if a0.startswith("ok ") and len(a0) > 8:
+            self._count("dir_judged_nonempty")
+        where = "the file answers %s, the view over the converted buffer answers %s" % (a0[:160], a1[:160])
+        if self.CHAIN.split(a0) != self.CHAIN.split(a1) or len(c0) != len(c1):
+            return "directory query %s: values differ: %s" % (fam, where)
+        for x0, x1 in zip(c0, c1):
+            if x0 == x1:
+                continue
+            n0, n1 = [int(x) for x in x0.split(":")], [int(x) for x in x1.split(":")]
+            if len(n0) != len(n1):
+                return "directory query %s: values differ (%s / %s): %s" % (fam, x0, x1, where)
+            i = 0
+            while i < len(n0):
+                if n0[i] == n1[i]:
+                    i += 1
+                    continue
+                # a differing number must be the offset of a reference whose length follows and is equal
+                if i + 1 >= len(n0) or n0[i + 1] != n1[i + 1]:
+                    return "directory query %s: values differ (%s / %s): %s" % (fam, x0, x1, where)
+                want = self._file_to_rvas(n0[i], n0[i + 1])
+                if not want:
+                    # not a reference into stored-and-mapped bytes or the headers (unmapped tails were excluded
+                    # above): two different values
+                    return "directory query %s: values differ (%s / %s): %s" % (fam, x0, x1, where)
+                elif n1[i] not in want:
+                    return "directory query %s: the file's reference %d:%d is stored and mapped at rva %s but the view refers to %d:%d: %s" % (
+                        fam, n0[i], n0[i + 1], "/".join("0x%x" % r for r in sorted(want)), n1[i], n1[i + 1], where)
+                else:
+                    self._count("dir_refs_relocated")
+                i += 2
+        return None
+
     def begin_case(self, case):
+        if not hasattr(self, "judged"):
+            self.judged = {"typed_reads_paired": 0, "typed_reads_judged": 0, "dir_ops_paired": 0, "dir_ops_judged": 0}
         self.phase = 0            # 0 = the file, 1 = view over to_view(file), 2 = file from to_file(view); None = not comparable
         self.first = {}           # phase-0 answers of the implementation by request
+        self.dir_first = {}       # phase-0 answers of the directory queries by (family, arguments)
+        self.res_dump_clean = False
         self.lay = None
         self.view_ok = False
         if case and case[0].startswith("img "):
@@ -367,7 +613,9 @@ class C06(Prop):
                 x, n = int(w[3], 0), int(w[2], 0)
             elif fam in ("derva_cstr", "deref_cstr") and len(w) == 3:
                 x, n = int(w[2], 0), 1
-            elif fam in ("derva_slice_s", "deref_slice_s") and len(w) == 5:
+            elif fam in ("derva_slice_s", "deref_slice_s", "derva_slice_f", "deref_slice_f") and len(w) == 5:
+                # (`_slice_f`: predicate-terminated; like a sentinel array the object is the returned elements plus
+                # the element the callable stopped on)
                 x, n = int(w[3], 0), self.TYPE_SIZE[w[2]]
             else:
                 return None
@@ -388,12 +636,36 @@ class C06(Prop):
             self.phase = 2 if (self.phase == 1 and impl.startswith("ok ")) else None
             return None
         if self.lay is None or self.phase is None:
+            if w[0] in self.DIR_FAMS and self.phase == 1:
+                self._count("dir_skipped_not_loadable_file")
             return None
         if w[0] == "from_bytes" and self.phase == 1:
             self.view_ok = impl.startswith("ok")
             if not self.view_ok:
                 # C06_to_view_accepted: the converted buffer of a LoadableFile image is accepted (it is placed 16-aligned)
                 return "the buffer produced by to_view from a loadable file is rejected by PeView::from_bytes: %s" % impl[:100]
+            return None
+        if w[0] == "secbytes" and len(w) == 3 and self.phase == 1 and self.view_ok and w[1] in ("v32", "v64", "wv"):
+            # "each section's stored bytes appear at their virtual addresses … the virtual-only tail … is zero": through
+            # the view over the converted buffer a section header describes exactly [VirtualAddress, +VirtualSize),
+            # also when the section has no raw data at all (bss: PointerToRawData = 0 is not a null section there)
+            try:
+                sec = self.lay["secs"][int(w[2], 0)]
+            except (ValueError, IndexError):
+                return None
+            self._count("secbytes_on_view_judged")
+            self._count("secbytes_on_view_bss", sec["rs"] == 0 and sec["prd"] == 0 and sec["vs"] > 0)
+            want = "ok %d:%d" % (sec["va"], sec["vs"])
+            if impl != want:
+                return "section %s (va 0x%x, VirtualSize 0x%x, PointerToRawData 0x%x, SizeOfRawData 0x%x) through the view over the converted buffer: %s, expected %s" % (
+                    w[2], sec["va"], sec["vs"], sec["prd"], sec["rs"], impl[:100], want)
+            return None
+        if w[0] in self.DIR_FAMS and len(w) >= 2:
+            key = (w[0],) + tuple(w[2:])
+            if self.phase == 0:
+                self.dir_first[key] = impl
+            elif self.phase == 1 and key in self.dir_first:
+                return self._dir_judge(key, self.dir_first[key], impl)
             return None
         rq = self._request(w)
         if rq is None:
@@ -403,12 +675,15 @@ class C06(Prop):
             self.first[key] = impl
             return None
         a0 = self.first.get(key)
+        self._count("typed_reads_paired")
         if a0 is None or not a0.startswith("ok "):
             return None
         where = "the view over the converted buffer" if self.phase == 1 else "the file converted back"
         if kind in ("copy", "into"):
             if not self._stored_and_mapped(rva, n):
                 return None
+            self._count("typed_reads_judged")
+            self._count("typed_judged_" + kind)
             if impl.startswith("ok "):
                 if impl != a0:
                     return "stored-and-mapped bytes at rva 0x%x read as %s through the file but as %s through %s" % (rva, a0[:80], impl[:80], where)
@@ -422,6 +697,8 @@ class C06(Prop):
         ln = int(m0.group(2))
         if not self._stored_and_mapped(rva, ln + n):
             return None
+        self._count("typed_reads_judged")
+        self._count("typed_judged_" + kind)
         m1 = re.match(r"ok (\d+):(\d+)", impl)
         if m1:
             if int(m1.group(2)) != ln:
